@@ -37,14 +37,16 @@ def worker_table(stage, sample_message=None):
     if mk is None and sample_message is not None:
         # probe the real worker with a message the REAL producer enqueued (the wire format is the code's business)
         mk = lambda k, hook: sample_message
-    return mpmodel.infer_worker(stage.call_worker, make_item=mk)
+    table = mpmodel.infer_worker(stage.call_worker, make_item=mk)
+    table["on_raise"] = mpmodel.infer_fault_reaction(stage.call_worker, make_item=mk)
+    return table
 
 
 def items_of_messages(stage, msgs):
     """Work items the enqueued messages stand for: what the REAL worker calls back for each message. Stages whose items
     carry their own hook (fake images) are keyed directly."""
     if getattr(stage, "make_item", None) is not None:
-        return [stage.item_key(m) for m in msgs]
+        return [stage.message_key(m) for m in msgs]
     out = []
     for m in msgs:
         out += [stage.item_key(a) for a in mpmodel.worker_callbacks_for(stage.call_worker, m)]
@@ -129,8 +131,8 @@ def check_reoffer(run, stage, n_workers):
             pass
         except Exception as e:
             rec.raised = "%s: %s" % (type(e).__name__, e)
-    want = sorted(repr(stage.item_key(op[2])) for op in base.ops if op[0] == "put")
-    got = sorted(repr(stage.item_key(op[2])) for op in rec.ops if op[0] == "put")
+    want = sorted(repr(stage.message_key(op[2])) for op in base.ops if op[0] == "put")
+    got = sorted(repr(stage.message_key(op[2])) for op in rec.ops if op[0] == "put")
     if got == want and rec.raised is None:
         run.ob(name, "confirmed", "E3:extraction", "after a queue.Full on its first put() the producer still enqueues exactly the %d items (the item is offered again)" % len(want))
         return
